@@ -30,6 +30,7 @@ ASSUMPTIONS = [
 ]
 MIN_NONTRIVIAL = {"quick": 15000, "thorough": 300000}
 TIMEOUT = {"quick": 1200, "thorough": 7200}
+AMBIENT = {"tests": ['test_n2p.py', 'test_cb.py', 'test_op2.py', 'test_nastran.py'], "monitors": ['sets'], "quick": False}
 
 NSHARD = {"quick": 16, "thorough": 16}
 NTABLE = {"quick": 608, "thorough": 10000}
